@@ -24,7 +24,7 @@ RV_TYPED = {
 }  # fmt: skip
 RV_QUICK2 = ["1", '"s"', "True", "None", "", '1, "s"', '"s", 1', "1.5"]
 # return values without a definite literal type: judged by "function is emitted" only (crashes belong to C01)
-RV_UNTYPED = ["c", "self_like", "len(xs)", "xs.count", "[1]", "{}", "c + 1", "xs[0]", "c == 1", "not c", "lambda: 1", 'f"{c}"']
+RV_UNTYPED = ["c", "self_like", "len", "LocalK", "len(xs)", "xs.count", "[1]", "{}", "c + 1", "xs[0]", "c == 1", "not c", "lambda: 1", 'f"{c}"']
 
 CTX = ["top", "if", "else", "elif", "try", "except", "try_else", "finally", "for", "for_else", "while", "while_else", "with", "match", "nested_def", "after_raise"]
 IGNORED_CTX = {"nested_def", "after_raise"}
@@ -80,6 +80,9 @@ def render_inferred(cid: int, stmts: list[tuple[tuple[str, ...], str]], method: 
         body += lines
     if not body:
         body = ["pass"]
+    if any(rv == "LocalK" for _p, rv in stmts):
+        # a class that is local to the function: no declaration exists that a type could refer to
+        body = ["class LocalK:", "    pass", "", *body]
     if method:
         return f"class C{cid}:\n    def f{cid}(self_like, c, xs):\n" + "\n".join("        " + ln for ln in body) + "\n"
     return f"def f{cid}(c, xs, self_like=None):\n" + "\n".join("    " + ln for ln in body) + "\n"
@@ -264,7 +267,7 @@ def run(rep: Report, tier: str, seed: int) -> None:
             infdoc_cases.append(Case(cid, src, ("inf", stmts, False, False), (), f"infdoc:{r1 or 'bare'}+{r2 or 'bare'}:{ndoc}{'N' if named else 'u'}"))
             cid += 1
     rep.rule = (
-        "inferred: one return statement under every statement context (16 contexts, depth<=%s) x 20 typed (incl. conditional expressions with one untypable branch on either side, nested conditionals, tuples with an untypable item) + 12 untyped return expressions; two return statements at depth<=1 over %d typed letters%s;"
+        "inferred: one return statement under every statement context (16 contexts, depth<=%s) x 20 typed (incl. conditional expressions with one untypable branch on either side, nested conditionals, tuples with an untypable item) + 14 untyped return expressions (whatever is inferred for them must not be the name of a variable, parameter, function or function-local class); two return statements at depth<=1 over %d typed letters%s;"
         " return statements in 2..4 clauses of one try statement (each clause: none / return / conditional return; 72 shapes) and in the branches of one if / for-else / while-else / match;"
         " functions and methods. annotated: 15 annotation terms alone and as tuple[...] of 1..3, also on 'async def'; numpydoc result sections with 0..3 entries, each named or unnamed, against 1..3 results."
         " distinct = distinct case label" % ("1 + 8 depth-2 paths" if tier == "quick" else "2 (complete)", len(RV_QUICK2) if tier == "quick" else len(RV_TYPED), "" if tier == "quick" else "; three return statements over top/if/else x 8 letters")
@@ -316,6 +319,20 @@ def run(rep: Report, tier: str, seed: int) -> None:
             if kind == "inf":
                 _, stmts, risky, _ = c.meta
                 if risky:
+                    # no literal value to cover - but whatever is inferred has to be a TYPE: the name of a parameter or
+                    # local variable of the function is none
+                    def names_of(n):  # noqa: ANN001, ANN202
+                        for a in n or ():
+                            if a[0] == "n":
+                                yield a[1]
+                                for x in a[2]:
+                                    yield from names_of(x)
+
+                    used = {nm for rt in rtypes for nm in names_of(rt)} & {"c", "xs", "self_like", "len", "LocalK"}
+                    if used:
+                        viol("inferred-type-is-a-type", "variable-name:" + ",".join(sorted({rv for _p, rv in stmts})), {"observed": rshow, "variable_names_used_as_types": sorted(used)})
+                    else:
+                        rep.ok("inferred-type-is-a-type")
                     continue
                 produced = [(path, rv, RV_TYPED[rv]) for path, rv in stmts if reachable(path)]
                 # clause 6 applies when the function's own body has no return statement with a value at all (a return
